@@ -1663,11 +1663,13 @@ the receiver, nothing happens.
 func (r *stack) unlock() {
 	if r.canMutex() {
 		if mutex, found := r.mutex(); found {
+			// clear the bookkeeping before letting go:
+			// afterwards it belongs to the next holder.
+			sc, _ := r.config()
+			sc.ldr = nil
 			verifPoint("lock.release", r, mutex)
 			mutex.Unlock()
 			verifPoint("lock.released", r, mutex)
-			sc, _ := r.config()
-			sc.ldr = nil
 		}
 	}
 }
